@@ -83,6 +83,58 @@ pub proof fn lemma_rfc4648_concat(s: Seq<u8>, t: Seq<u8>)
     }
 }
 
+// -- the encoding is injective on inputs of equal length (so a challenge determines the 32 payload bytes)
+pub proof fn lemma_b64url_char_inj(i: int, j: int)
+    requires 0 <= i < 64, 0 <= j < 64, b64url_char(i) == b64url_char(j),
+    ensures i == j,
+{}
+pub proof fn lemma_concat_split(x: Seq<u8>, y: Seq<u8>, x2: Seq<u8>, y2: Seq<u8>)
+    requires x.len() == x2.len(), x + y == x2 + y2,
+    ensures x == x2, y == y2,
+{
+    assert((x + y).subrange(0, x.len() as int) =~= x);
+    assert((x2 + y2).subrange(0, x.len() as int) =~= x2);
+    assert((x + y).subrange(x.len() as int, (x + y).len() as int) =~= y);
+    assert((x2 + y2).subrange(x.len() as int, (x2 + y2).len() as int) =~= y2);
+}
+pub proof fn lemma_rfc4648_injective(a: Seq<u8>, b: Seq<u8>)
+    requires a.len() == b.len(), rfc4648_url(a) == rfc4648_url(b),
+    ensures
+        //@@ C18:lemma.base64.injective
+        a == b,
+    decreases a.len()
+{
+    if a.len() == 0 {
+        assert(a =~= b);
+    } else if a.len() == 1 {
+        let (x, y) = (b64_group1(a[0]), b64_group1(b[0]));
+        assert(x[0] == y[0] && x[1] == y[1]);
+        lemma_b64url_char_inj(a[0] as int / 4, b[0] as int / 4);
+        lemma_b64url_char_inj((a[0] as int % 4) * 16, (b[0] as int % 4) * 16);
+        assert(a =~= b);
+    } else if a.len() == 2 {
+        let (x, y) = (b64_group2(a[0], a[1]), b64_group2(b[0], b[1]));
+        assert(x[0] == y[0] && x[1] == y[1] && x[2] == y[2]);
+        lemma_b64url_char_inj(a[0] as int / 4, b[0] as int / 4);
+        lemma_b64url_char_inj((a[0] as int % 4) * 16 + a[1] as int / 16, (b[0] as int % 4) * 16 + b[1] as int / 16);
+        lemma_b64url_char_inj((a[1] as int % 16) * 4, (b[1] as int % 16) * 4);
+        assert(a =~= b);
+    } else {
+        let (x, y) = (b64_group3(a[0], a[1], a[2]), b64_group3(b[0], b[1], b[2]));
+        lemma_concat_split(x, rfc4648_url(a.skip(3)), y, rfc4648_url(b.skip(3)));
+        lemma_rfc4648_injective(a.skip(3), b.skip(3));
+        assert(x[0] == y[0] && x[1] == y[1] && x[2] == y[2] && x[3] == y[3]);
+        lemma_b64url_char_inj(a[0] as int / 4, b[0] as int / 4);
+        lemma_b64url_char_inj((a[0] as int % 4) * 16 + a[1] as int / 16, (b[0] as int % 4) * 16 + b[1] as int / 16);
+        lemma_b64url_char_inj((a[1] as int % 16) * 4 + a[2] as int / 64, (b[1] as int % 16) * 4 + b[2] as int / 64);
+        lemma_b64url_char_inj(a[2] as int % 64, b[2] as int % 64);
+        assert forall|i: int| 0 <= i < a.len() implies a[i] == b[i] by {
+            if i >= 3 { assert(a.skip(3)[i - 3] == b.skip(3)[i - 3]); }
+        }
+        assert(a =~= b);
+    }
+}
+
 // ---------------------------------------------------------------------------------------------------------------
 // WebAuthn authenticator-data flags (https://www.w3.org/TR/webauthn-2/#flags): bit 0 UP, bit 2 UV, bit 3 BE, bit 4 BS.
 // ---------------------------------------------------------------------------------------------------------------
@@ -129,3 +181,36 @@ pub open spec fn webauthn_accepts(payload: Seq<u8>, key: Seq<u8>, sd: WebAuthnSi
     &&& flags_ok(sd.authenticator_data@[32])
     &&& sig_ok(SigScheme::Secp256r1, key, webauthn_signed_digest(sd.authenticator_data@, sd.client_data@), sd.signature@)
 }
+
+// ---------------------------------------------------------------------------------------------------------------
+// consequences, in the words of the property
+// ---------------------------------------------------------------------------------------------------------------
+/// "any change to the payload is rejected": one assertion (client data, authenticator data, signature) is accepted
+/// for at most one value of the 32 authorized payload bytes — whatever the key.
+pub proof fn lemma_assertion_binds_payload(p1: Seq<u8>, k1: Seq<u8>, p2: Seq<u8>, k2: Seq<u8>, sd: WebAuthnSigData)
+    requires webauthn_accepts(p1, k1, sd), webauthn_accepts(p2, k2, sd),
+    ensures
+        //@@ C18:lemma.payload_bound
+        p1.subrange(0, 32) == p2.subrange(0, 32),
+{
+    lemma_rfc4648_injective(p1.subrange(0, 32), p2.subrange(0, 32));
+}
+/// "any change to flags ... is rejected": acceptance fixes UP = UV = 1 and excludes BS without BE; as a mask test
+pub proof fn lemma_flags_mask(f: u8)
+    ensures
+        //@@ C18:lemma.flags_mask
+        flags_ok(f) == ((f & 0x05u8) == 0x05u8 && (f & 0x18u8) != 0x10u8),
+{
+    assert((((f >> 0u8) & 1u8 == 1u8) && ((f >> 2u8) & 1u8 == 1u8) && (((f >> 4u8) & 1u8 == 1u8) ==> ((f >> 3u8) & 1u8 == 1u8)))
+        == ((f & 0x05u8) == 0x05u8 && (f & 0x18u8) != 0x10u8)) by (bit_vector);
+}
+/// an accepted assertion carries a signature that the host accepted over exactly
+/// sha256(authenticator_data || sha256(client_data)) under the given key, and has the two mandatory flags
+pub proof fn lemma_accept_unfolds(p: Seq<u8>, k: Seq<u8>, sd: WebAuthnSigData)
+    requires webauthn_accepts(p, k, sd),
+    ensures
+        //@@ C18:lemma.accept_unfolds
+        flag_up(sd.authenticator_data@[32]) && flag_uv(sd.authenticator_data@[32]),
+        sig_ok(SigScheme::Secp256r1, k, sha256_spec(sd.authenticator_data@ + sha256_spec(sd.client_data@)), sd.signature@),
+        p.len() >= 32,
+{}
